@@ -252,7 +252,9 @@ def finish(ctx, manifest_entry, sections, replay_fn, t0):
         "discharged": n_dis,
         "checker_cmd": f"./check {pid} --tier {ctx.tier}",
         "trusted_base": assumptions,
-        "explanation": manifest_entry["level_claimed"]["text"] if manifest_entry else "",
+        "explanation": ((manifest_entry["level_claimed"]["text"] if manifest_entry else "no MANIFEST entry for this property")
+                        + ("" if level == claimed else f" [this run: level withdrawn to '{level}' because {n_obl - n_dis} of {n_obl} "
+                           "deductive obligations were not discharged]")),
         "exhaustive": bool(sections) and all(s.exhaustive for s in sections if s.bounded) and any(s.bounded for s in sections),
         "functions_under_contract": functions,
         "obligations_by_backend": backends,
